@@ -14,6 +14,7 @@ a_real a_trajtrap_gen(a_trajtrap *ctx, a_real vm, a_real ac, a_real de,
     int const reversed = p < 0;
     if (ac == de) { return 0; }
     if (vm < 0) { vm = -vm; }
+    if (vm == 0) { return 0; }
     v0 = A_SAT(v0, -vm, +vm);
     v1 = A_SAT(v1, -vm, +vm);
     ctx->p0 = p0;
